@@ -144,7 +144,10 @@ class _Shape:
 
     def kws(self, n):
         if n[0] == "alt":
-            return [self.word(b) for b in n[1]]
+            ws = [self.word(b) for b in n[1]]
+            for ref in ("pre-keywords", "post-keywords"):                     # x4: canonical order of the keyword alternation
+                ws = [ws[i] for i in T.canonical_word_order(ws, T.REFERENCE_WORD_ORDER[ref])]
+            return ws
         raise Unsupported("SPECIFIER: keyword alternation expected")
 
     def opt_sep(self, n):
@@ -273,6 +276,7 @@ def _specifier_rule(pat, spec_cls):
                 raise Unsupported("operator atom is not a single character")
             w += chr(rs[0][0])
         ops.append(w)
+    ops = [ops[i] for i in T.canonical_word_order(ops, T.REFERENCE_WORD_ORDER["specifier-operators"])]      # x4
     sh = _Shape(atoms)
     alts = [sh.alternative(b) for b in ir[1][1]]
     kw = None
